@@ -247,32 +247,11 @@ Section Typing.
     - exact Hst.
   Qed.
 
-  Lemma kid_atts_ok fields : nodup_text (map f_name fields) = true ->
-    forall atts st st', st_ok fields st -> kid_atts L fields atts st = Ok st' -> st_ok fields st'.
-  Proof.
-    intros Hn. induction atts as [|[[ans an] av] atts IH]; intros st st' Hst H; cbn in H.
-    - inversion H; subst. exact Hst.
-    - destruct (find_field (clark ans an) fields) as [f|] eqn:Ef; [|eapply IH; eauto].
-      destruct (c4_find_field_spec _ _ _ Ef) as [Hin Hname].
-      destruct (f_kind f); [discriminate|].
-      destruct (f_ty f) as [p| |] eqn:Et; try discriminate.
-      destruct (lc_rd L p av) as [v| |] eqn:Er; try discriminate. cbn in H.
-      pose proof (HL _ _ _ Er) as Hv.
-      destruct (is_multi f) eqn:Em.
-      + destruct (as_list (getattr st (clark ans an))) as [l| |] eqn:El; try discriminate. cbn in H.
-        eapply IH; [|exact H]. eapply st_ok_set; eauto.
-        unfold member_has_type. rewrite Em. apply Forall_app. split.
-        * eapply as_list_typed; eauto. rewrite Hname. exact El.
-        * constructor; [|constructor]. rewrite Et. exact Hv.
-      + eapply IH; [|exact H]. eapply st_ok_set; eauto.
-        unfold member_has_type. rewrite Em, Et. exact Hv.
-  Qed.
-
   Lemma kids4_ok (decf : field -> xn -> out val) fields :
     nodup_text (map f_name fields) = true ->
     (forall f c v, In f fields -> decf f c = Ok v -> has_type U poly v (f_ty f)) ->
     forall kids st freq st' freq', st_ok fields st ->
-      kids4 L decf fields kids st freq = Ok (st', freq') -> st_ok fields st'.
+      kids4 decf fields kids st freq = Ok (st', freq') -> st_ok fields st'.
   Proof.
     intros Hn Hd. induction kids as [|c kids IH]; intros st freq st' freq' Hst H; cbn in H.
     - inversion H; subst. exact Hst.
@@ -283,14 +262,11 @@ Section Typing.
       pose proof (Hd _ _ _ Hin Ev) as Hv.
       destruct (is_multi f) eqn:Em.
       + destruct (as_list (getattr st name)) as [l| |] eqn:El; try discriminate. cbn in H.
-        destruct (kid_atts L fields catts (setattr st name (VList (l ++ [v])))) as [st2| |] eqn:Ek; try discriminate.
-        cbn in H. eapply IH; [|exact H]. eapply kid_atts_ok; [exact Hn| |exact Ek].
+        eapply IH; [|exact H].
         eapply st_ok_set; eauto. unfold member_has_type. rewrite Em. apply Forall_app. split.
         * eapply as_list_typed; eauto. rewrite Hname. exact El.
         * constructor; [exact Hv|constructor].
-      + cbn in H.
-        destruct (kid_atts L fields catts (setattr st name v)) as [st2| |] eqn:Ek; try discriminate.
-        cbn in H. eapply IH; [|exact H]. eapply kid_atts_ok; [exact Hn| |exact Ek].
+      + cbn in H. eapply IH; [|exact H].
         eapply st_ok_set; eauto. unfold member_has_type. rewrite Em. exact Hv.
   Qed.
 
@@ -391,7 +367,7 @@ Section Typing.
       pose proof (c4_wf_flat_nodup _ _ _ Hwf Hff) as Hn.
       pose proof (flat_attr_single Hattr _ _ _ Hff) as Ha.
       set (fields := map snd fds) in *.
-      destruct (kids4 L (fun f => match f_kind f with KElem => rec (f_ty f) (f_nillable f) | KAttr => attr_elem L C f end) fields kids [] []) as [[st1 fr1]| |] eqn:E1; try discriminate.
+      destruct (kids4 (fun f => match f_kind f with KElem => rec (f_ty f) (f_nillable f) | KAttr => attr_elem L C f end) fields kids [] []) as [[st1 fr1]| |] eqn:E1; try discriminate.
       cbn in H.
       destruct (own_atts L fields atts st1 fr1) as [[st2 fr2]| |] eqn:E2; try discriminate. cbn in H.
       destruct (x4_soft C && negb (freq_ok4 fields fr2)); [discriminate|]. inversion H; subst.
